@@ -4,6 +4,7 @@ import (
 	"bytes"
 	"encoding/json"
 	"fmt"
+	"io"
 	"math"
 	"strings"
 	"time"
@@ -373,6 +374,31 @@ func checkEnvelope(c *core.Ctx, rq *c07Req, res map[string]interface{}, cfgName 
 
 // tokenBoundaries returns the byte offsets at which text can be cut between tokens.
 // tokenPerLine puts a line break after every token of a one-line request (strings stay whole; $name, @name and ...Name stay glued).
+// c07EOFReader hands its data out in chunks (0 = everything at once) and returns io.EOF together with the last bytes.
+type c07EOFReader struct {
+	data  []byte
+	chunk int
+}
+
+func (r *c07EOFReader) Read(p []byte) (int, error) {
+	if len(r.data) == 0 {
+		return 0, io.EOF
+	}
+	n := len(p)
+	if r.chunk > 0 && r.chunk < n {
+		n = r.chunk
+	}
+	if n > len(r.data) {
+		n = len(r.data)
+	}
+	copy(p, r.data[:n])
+	r.data = r.data[n:]
+	if len(r.data) == 0 {
+		return n, io.EOF
+	}
+	return n, nil
+}
+
 func tokenPerLine(text string) string {
 	var b strings.Builder
 	inStr := false
@@ -484,6 +510,26 @@ func runC07(c *core.Ctx) {
 			rqw := *rq
 			rqw.Kind = rq.Kind + "+warm-root"
 			checkEnvelope(c, &rqw, res2, nc.Name)
+			// the same text through readers that behave differently at the end of the input: the last byte handed over together
+			// with io.EOF (an HTTP body with a Content-Length), and one byte per Read - positions count bytes, not Read calls
+			if strings.HasPrefix(rq.Kind, "truncated") || strings.HasPrefix(rq.Kind, "token-deleted") || rq.Kind == "valid" {
+				for _, chunk := range []int{0, 1} {
+					root3, r3, err := world.BuildRoot(nc.Cfg, g)
+					if err != nil {
+						panic(core.EngineError{Msg: err.Error()})
+					}
+					r3.Faults = rq.Faults
+					c.Eval()
+					var res3 map[string]interface{}
+					if pi := core.Safe(func() { res3 = root3.ResolveReader(&c07EOFReader{data: []byte(rq.Text), chunk: chunk}, rq.Op, rq.Vars) }); pi != nil {
+						c.Violation("panic", map[string]string{"site": pi.Site, "class": pi.Class, "request": rq.Kind + "+reader"}, map[string]interface{}{"query": rq.Text, "panic": pi.Value})
+						continue
+					}
+					rqr := *rq
+					rqr.Kind = rq.Kind + "+last-byte-with-EOF"
+					checkEnvelope(c, &rqr, res3, nc.Name)
+				}
+			}
 		}
 		c.Sample(func() interface{} {
 			return map[string]interface{}{"kind": rq.Kind, "layout": int(rq.Layout), "query": rq.Text, "op": rq.Op, "vars": rq.Vars}
@@ -662,6 +708,29 @@ func runC07(c *core.Ctx) {
 			}
 			run(&c07Req{Kind: "string-content:data", Text: "query Q($v: String!) { echo(s: $v, b: true) a { echo(s: $v) } }", Op: "Q", Vars: map[string]interface{}{"v": str}})
 			run(&c07Req{Kind: "string-content:error", Text: "query Q($v: Color) { pick(e: $v) }", Op: "Q", Vars: map[string]interface{}{"v": str}})
+		}
+	}
+	// subscription requests (they register and answer with an envelope too): working, failing, and partly failing ones - a root
+	// field that resolves to a subscription beside one that does not exist, fails, or sits in a fragment
+	for _, text := range []string{
+		`subscription { ev(id: "x") { name } }`, `subscription { ev(id: "x") { name } nope }`, `subscription { a: ev { name } b: nope { x } }`,
+		`subscription { nope ev { n } }`, `subscription { ev { name } ... on Subscription { zz } }`, `subscription { ev { zz } }`, `subscription { ...F ev(id: "y") { n } } fragment F on Subscription { nope }`,
+		`subscription S($v: Int) { ev(id: $v) { name } other: ev { n } }`, `subscription { ev(id: 7) { name } fine: ev { n } }`,
+	} {
+		if !c.Owns("subscription|" + text) {
+			continue
+		}
+		for _, reflectEvents := range []bool{false, true} {
+			c.Eval()
+			h := newC19H(reflectEvents)
+			var res map[string]interface{}
+			if pi := core.Safe(func() { res = h.root.ResolveString(text, "", map[string]interface{}{"v": 7}) }); pi != nil {
+				c.Outcome("panic")
+				c.Violation("panic", map[string]string{"site": pi.Site, "class": pi.Class, "request": "subscription"}, map[string]interface{}{"query": text, "panic": pi.Value})
+				continue
+			}
+			c.Outcome("checked")
+			checkEnvelope(c, &c07Req{Kind: "subscription", Text: text}, res, "RS")
 		}
 	}
 	c.R.Bound = fmt.Sprintf("%d documents x 6 layouts (mutated documents: 2 layouts); strings <= 2 runes over %d runes as data and in error messages; single faults, single defects, all truncations and token deletions", len(docs), len(c18Runes))
